@@ -151,10 +151,16 @@ func (s *jwtSigner) Hash() []byte {
 	jwk := s.jwk
 	s.mut.RUnlock()
 
+	return signerHash(jwk, s.iss)
+}
+
+// signerHash identifies what tokens are signed with and as whom: key id, algorithm,
+// issuer and the key itself.
+func signerHash(jwk jose.JSONWebKey, iss string) []byte {
 	hash := sha256.New()
 	hash.Write(stringx.ToBytes(jwk.KeyID))
 	hash.Write(stringx.ToBytes(jwk.Algorithm))
-	hash.Write(stringx.ToBytes(s.iss))
+	hash.Write(stringx.ToBytes(iss))
 
 	// the key itself: a reload may keep key id and algorithm but replace the key,
 	// and whatever has been cached for the old key must not be reused then
@@ -166,6 +172,17 @@ func (s *jwtSigner) Hash() []byte {
 }
 
 func (s *jwtSigner) Sign(sub string, ttl time.Duration, customClaims map[string]any) (string, error) {
+	token, _, err := s.signWithHash(sub, ttl, customClaims)
+
+	return token, err
+}
+
+// signWithHash signs and also returns the hash (see Hash) of the very key the token was
+// signed with. The key store may be reloaded between a call of Hash and a call of Sign,
+// so only this hash tells reliably what a token belongs to.
+func (s *jwtSigner) signWithHash(
+	sub string, ttl time.Duration, customClaims map[string]any,
+) (string, []byte, error) {
 	s.mut.RLock()
 	jwk := s.jwk
 	key := s.key
@@ -178,7 +195,7 @@ func (s *jwtSigner) Sign(sub string, ttl time.Duration, customClaims map[string]
 			WithHeader("kid", jwk.KeyID).
 			WithHeader("alg", jwk.Algorithm))
 	if err != nil {
-		return "", errorchain.NewWithMessage(heimdall.ErrInternal, "failed to create JWT signer").CausedBy(err)
+		return "", nil, errorchain.NewWithMessage(heimdall.ErrInternal, "failed to create JWT signer").CausedBy(err)
 	}
 
 	claims := make(map[string]any)
@@ -197,10 +214,10 @@ func (s *jwtSigner) Sign(sub string, ttl time.Duration, customClaims map[string]
 
 	rawJwt, err := builder.Serialize()
 	if err != nil {
-		return "", errorchain.NewWithMessage(heimdall.ErrInternal, "failed to sign claims").CausedBy(err)
+		return "", nil, errorchain.NewWithMessage(heimdall.ErrInternal, "failed to sign claims").CausedBy(err)
 	}
 
-	return rawJwt, nil
+	return rawJwt, signerHash(jwk, s.iss), nil
 }
 
 func (s *jwtSigner) Keys() []jose.JSONWebKey {
